@@ -59,6 +59,12 @@ class C08(Driver):
         balanced = r.random() < 0.5
         w_lend = r.choice([0, 0, 0.15])
         main_only_abandons = r.random() < 0.35
+        if main_only_abandons:
+            # (such a plan is about abandoned waits: make sure the main thread has some)
+            w_sel, w_dl = max(w_sel, 0.2), max(w_dl, 0.15)
+            if nch < 2:
+                nch = 2
+                caps.append(r.choice([0, 0, 1, 2, 8]))
         for t in range(nth + 1):          # thread 0 = the main thread
             bias = r.random()
             ops = []
@@ -136,7 +142,9 @@ class C08(Driver):
             # every stale entry then belongs to the main thread, whose VM outlives the run: nothing dangles, and the
             # re-dispatch of messages that reach a stale entry has to conserve them
             plan["strict"] = 1
-            if r.random() < 0.3:
+            if r.random() < 0.5:
+                plan["collector"] = r.choice([5, 20, 60])
+            if r.random() < 0.5:
                 # collections at seeded safepoints in every thread: a task parked on a thread channel is kept alive
                 # only by the root its pending entry took
                 knobs["gc"] = "bern %s" % r.choice([0.01, 0.05])
@@ -238,6 +246,10 @@ class C08(Driver):
         for th in plan["threads"]:
             t = th["id"]
             if th["mode"] == "main":
+                if plan.get("collector"):
+                    # another fiber of the main thread collects while the body is parked: a task parked on a thread
+                    # channel is kept alive only by the roots its pending entries took
+                    A("(ev/spawn (repeat %d (ev/sleep 0.001) (gccollect)))" % plan["collector"])
                 A("(ev/go body0)")
             elif th["mode"] == "join":
                 A("(ev/spawn (sim/ev :spawn %d) (let [a (mk %d %d)] (sim/ev :targ-sent %d (show a)) (let [[ok v] (protect (ev/thread body%d a))] (sim/ev :joined %d ok (show v)))))"
